@@ -31,7 +31,7 @@ type Opts struct {
 	// variables (no field selectors, no pointer dereferences): for hot code
 	// whose structs are covered by other means.
 	NoFields bool
-	Main   bool // package main: log.Fatal*, os.Exit, fmt.Print* ; main renamed to Main, package renamed
+	Main     bool // package main: log.Fatal*, os.Exit, fmt.Print* ; main renamed to Main, package renamed
 	// MainPkgName is the new package name when Main is set.
 	MainPkgName string
 }
